@@ -4,6 +4,7 @@ def table(n):  # n columns
 FRAGS = [
  b"plain text", b"[", b"[[", b"![", b"(", b"{", b"{{", b"{{TOC", b"{++", b"{--", b"{~~a~>", b"{>>", b"{==", b"`", b"``", b"```\ncode", b"<", b"<!--", b"<a href=\"x",
  b"*a", b"**a", b"_a", b"__a", b"***a*", b"$x", b"$$x", b"\\\\(x", b"\\\\[x", b"[^", b"[^a]", b"[#a", b"[?a", b"[>a", b"[%a", b"x^a", b"x~a", b"\"q", b"'q", b"&", b"&#", b"&amp", b"\\", b"\\\n",
+ b"![p](p.png width=\"50%\" height=\"3em\")", b"![p](p.png height=2cm width=40%)", b"![p][r] ![q][r]\n\n[r]: p.png width=5em height=3cm class=c", b"![p](p.png width=30px height=3em) ![p](p.png width=3em height=30px)",
  b"![a](b.png width= height=3)", b"![a](b.png \"t\" class=)", b"[l](u \"t\" a=b c=\"d", b"[r]: u \"t\" w= h=\"\"\n\n[x][r]", b"![i][r]\n\n[r]: p.png =", b"[a](<b c> \"t\"", b"<http://a.b/?x=1&y=2", b"<mailto:a@b.c>", b"<a@b.c",
  table(1), table(47), table(48), table(49), table(64), table(200), b"|a|\n|:-:|:-|-:|\n", b"| a || b |\n|---|---|---|\n| c |||\n[cap]", b"a|b\n-|-\n",
  b"a\r\nb\r\n\r\n", b"a\rb\r\r", b"a\n\rb", b"\r", b"\x80", b"\xc3", b"a\xe2\x82", b"\xf0\x9f\x92", b"\xc0\xaf", b"\xff\xfe", b"caf\xc3\xa9 \xc2\xa0x", b"\xe2\x80\x9cq\xe2\x80\x9d",
